@@ -22,7 +22,7 @@ RULE = (
     "Oracle: the user callables record the coordinates they were asked about: these must be the pre-image of z (float64 "
     "closed forms for stateless maps; the transform's own inverse when an affine part is fitted), identical for L, pi and q, and "
     "value == (1-beta) log q + beta (log L + log pi) + log|det dx/dz| (beta=1, no q for MCMC) from the values the callables "
-    "returned; zero prior => -inf; NaN tempered value => -inf in SMC; the evaluation leaves the array holding z untouched. "
+    "returned; zero prior => -inf; NaN tempered value => -inf in SMC; the evaluation leaves the array holding z untouched; the callables memoise per batch and hand the same array objects back, and a second evaluation at the same points returns the same values (nothing a user callable returned is modified in place). "
     "Non-trivial = preconditioning != none and beta < 1, or a zero-prior / NaN point present."
 )
 ASSUMPTIONS = [
